@@ -1408,8 +1408,9 @@ def correspondence(case, impl, model):
             return "schemas differ: model " + canon_schema(model["schema"])[:400] + " impl " + canon_schema(impl["schema"])[:400]
         if canon_schema(model["defs"]) != canon_schema(impl["defs"]):
             return "definitions differ: model " + canon_schema(model["defs"])[:400] + " impl " + canon_schema(impl["defs"])[:400]
-        if not model.get("fixAgrees") and (model.get("inFrag") or model.get("inWfFrag")):
-            return "dialectFix (emit false) differs from emit true"
+        # (`dialectFix (emit false) = emit true` is a theorem for every declaration — Props/C08
+        # dialect_fix_is_emit_true; the driver's structural comparison `fixAgrees` is informational: it is false
+        # when a default is not a JSON value, which structEq does not compare)
         want = bool(impl["wf"] and impl["refs_ok"])
         if model["wfImpl"] != want and not (impl.get("wf_err") or {}).get("key", "").startswith("crash"):
             return f"well-formedness: Lean wfDocument={model['wfImpl']}, Draft4Validator.check_schema+refs={want} ({impl.get('wf_err')}, {impl.get('bad_refs')})"
